@@ -280,7 +280,9 @@ def classify(data, out, expected_harnesses, harness_prefixes):
                 else:
                     res["failed"].append(rec)
             elif status not in ("Success", "Unreachable"):
-                res["undecided"].append("harness %s: check %s status %s" % (hid, rec["name"], status))
+                key = "harness %s: checks with status %s (an unwinding assertion failed or the solver gave up)" % (hid, status)
+                if key not in res["undecided"]:
+                    res["undecided"].append(key)
             elif status == "Unreachable" and m:
                 res["undecided"].append("harness %s: named obligation %s is unreachable (vacuous)" % (hid, rec["name"]))
     for h in expected_harnesses:
